@@ -11,7 +11,7 @@ From LV Require Import Base.Bytes Base.Sx Model.Obj Model.Writer Model.Parser Mo
 From LV Require Model.A85 Model.AsciiHex Spec.AsciiHexSpec Proofs.AsciiHexProofs.
 From LV Require Import Proofs.SpellingNumProofs Proofs.SpellingObjProofs Proofs.SpellingFileProofs Proofs.SpellingProofsLitRaw.
 From LV Require Model.Utf Proofs.LoadsFrameProofs Proofs.LoadsTableProofs Proofs.LoadsStreamProofs Proofs.LoadsFilterProofs.
-From LV Require Model.LoaderExt Model.StreamFilt Spec.StreamCodecSpec Model.Png Proofs.ObjStmSpellProofs Proofs.LengthRefProofs Gen.SaveFmt.
+From LV Require Model.LoaderExt Model.StreamFilt Spec.StreamCodecSpec Model.Png Proofs.ObjStmSpellProofs Proofs.LengthRefProofs Gen.SaveFmt Proofs.LoadsRefLenProofs.
 Local Open Scope N_scope.
 
 (* (1) Cross-reference streams.  For ALL field widths (0 = field absent, any positive width, not all three
@@ -745,6 +745,60 @@ Theorem C02_example_length_ref :
     [((5, 0), OStream [(bs "Length", OInt 3)] (bs "abc")); ((6, 0), OInt 3)].
 Proof. repeat split; vm_compute; reflexivity. Qed.
 
+(* C02_loads, TABLE format, with INDIRECT STREAM LENGTHS, against c01's extended reader for ANY Stream::decompress: everything
+   C02_loads_table_partial says, for documents whose streams carry their Length directly OR as a reference to an integer
+   object of the document ([top_ok2]; the eager path: the cross-reference table is complete when the objects are read, the
+   length object is found at the offset its entry names, in any spelling).  Since load_ext is conservative over Loader.load
+   this subsumes C02_loads_table_partial.  PARTIAL: as (b)-(d) there; the deferred path and the stream format with
+   Length references are proved at the level of their pieces only (C02_length_ref_deferred / _content). *)
+Theorem C02_loads_table_reflen_partial :
+  forall (st : fstyle) (a : adoc) (t : tstyle) (file : bytes)
+         (decompress : dict -> bytes -> option (dict * bytes)) (can_decompress : dict -> bool),
+    s_xref st = XTable t -> s_ostms st = [] -> ref_write st a = Some file ->
+    Forall (LoadsRefLenProofs.top_ok2 a) (LoadsTableProofs.tops st a) -> Utf.utf8_decode (a_version a) <> None ->
+    (spell_wf (ODict (LoadsTableProofs.trd a)) (t_trailer t) /\ (nest (ODict (LoadsTableProofs.trd a)) <= MAX_DEPTH)%nat /\
+      dict_get (a_trailer a) RefWriter.K_Size = None /\ dict_get (a_trailer a) K_Prev = None /\ dict_get (a_trailer a) K_Encrypt = None) ->
+    (LoadsTableProofs.xpos st a <= u32_max /\ LoadsTableProofs.size a <= u32_max /\ 25 < LoadsTableProofs.xpos st a) ->
+    (9 + length (LoadsTableProofs.sx_mid (s_sx_eol1 st) (s_sx_sp1 st) (LoadsTableProofs.xpos st a) (s_sx_sp2 st) (s_sx_eol2 st)) <= 25)%nat ->
+    exists d, LoaderExt.load_ext decompress can_decompress file = LOk d XTTable /\
+      d_version d = a_version a /\ d_trailer d = LoadsTableProofs.t0 a t /\
+      (forall tp, In tp (LoadsTableProofs.tops st a) ->
+                  lookup (d_objects d) (fst (fst tp)) = Some (LoadsTableProofs.loaded_top tp)) /\
+      (forall id o, lookup (d_objects d) id = Some o -> exists tp, In tp (LoadsTableProofs.tops st a) /\ fst (fst tp) = id).
+Proof. intros. eapply LoadsRefLenProofs.loads_table_reflen_file; eassumption. Qed.
+
+Definition ex_adoc_rl : adoc :=
+  {| a_version := bs "1.4";
+     a_trailer := [(bs "Root", ORef 7 0)];
+     a_objs := [((7, 0), ODict [(bs "Type", OName (bs "Catalog")); (bs "V", OReal (bs "2.5"))]);
+                ((3, 2), OStream [(bs "Length", ORef 4 0)] (bs "a(b" ++ [x0d; x0a])); ((4, 0), OInt 5)] |}.
+
+(* non-vacuity: the stream's Length is "4 0 R", object 4 is the integer 5, written AFTER the stream *)
+Theorem C02_example_loads_table_reflen :
+  ref_write ex_fstyle ex_adoc_rl <> None /\
+  Forall (LoadsRefLenProofs.top_ok2 ex_adoc_rl) (LoadsTableProofs.tops ex_fstyle ex_adoc_rl) /\
+  (match LoaderExt.load_plain (match ref_write ex_fstyle ex_adoc_rl with Some f => f | None => [] end) with
+   | LOk d _ => lookup (d_objects d) (3, 2) = Some (OStream [(bs "Length", OInt 5)] (bs "a(b" ++ [x0d; x0a]))
+   | _ => False
+   end).
+Proof.
+  assert (Hr : real_wf (bs "2.5")) by (exists false, (bs "2"), (bs "5"); repeat split; try reflexivity; discriminate).
+  split; [vm_compute; discriminate|]. split; [|vm_compute; reflexivity].
+  unfold LoadsTableProofs.tops. cbn [a_objs ex_adoc_rl map fst snd].
+  (constructor; [|constructor; [|constructor; [|constructor]]]); cbn;
+    repeat match goal with
+           | |- _ /\ _ => split
+           | |- NoDup _ => repeat (constructor; [cbn; intuition discriminate|]); constructor
+           | |- True => exact I
+           | |- real_wf _ => exact Hr
+           | |- _ = true => reflexivity
+           | |- _ = false => reflexivity
+           | |- (_ <= _)%nat => vm_compute; lia
+           | |- _ <= _ => unfold u32_max, u16_max; lia
+           | |- _ \/ _ => right; exists 4, 0; split; [reflexivity|]; right; right; left; reflexivity
+           end.
+Qed.
+
 (* the frame: Reader::read reduced to its pieces, for any file junk ++ F *)
 Theorem C02_load_frame :
   forall (junk F pre xr : bytes) version x0 t0 objs,
@@ -907,6 +961,8 @@ Print Assumptions C02_length_ref_lookup.
 Print Assumptions C02_length_ref_deferred.
 Print Assumptions C02_length_ref_content.
 Print Assumptions C02_example_length_ref.
+Print Assumptions C02_loads_table_reflen_partial.
+Print Assumptions C02_example_loads_table_reflen.
 Print Assumptions C02_load_frame.
 Print Assumptions C02_example_loads_table.
 Print Assumptions C02_example_object.
